@@ -357,7 +357,7 @@ fn main() {
     {
         let mut cx = Ctx { rep: &mut rep, model: &mut model };
         probes(&mut cx, &s);
-        let tables = args.n(70, 1500);
+        let tables = args.n(160, 1800);
         let per_table = args.n(8, 16);
         let big_hi = args.n(1100, 4000) as i64;
         for ti in 0..tables {
